@@ -81,7 +81,7 @@ func genWorkload(t *rapid.T, first bool) *workload {
 	s.IntervalUs = 300
 	s.WatchdogMs = 10000
 	s.OpMarks = true
-	s.Pad = 48
+	// no padding here (fshelper.Spec.Pad): with signal injection the pad calls themselves would be the kill point
 	seed := rapid.Uint64().Draw(t, "seed")
 	for i := 0; i < nObjects; i++ {
 		o := fsobj.Spec{Idx: i, Seed: seed, Cnr: i % 2}
@@ -312,10 +312,11 @@ func TestC12CrashPoints(t *testing.T) {
 				other[e.Name][e.Tid]++
 			}
 		}
-		// Crash points. Main-thread calls: ordinal pre+j addresses the j-th call of the workload exactly (the helper
-		// pads fdatasync/close so that these ordinals are out of reach of other threads). Calls on other threads
-		// (batch sync timer): thread identity changes between runs, so every ordinal up to the number of such
-		// calls is tried and the hit is measured; unhit instances get extra rounds below.
+		// Crash points. Main-thread calls: ordinal pre+j addresses the j-th call of the workload (the kill goes to the
+		// first thread reaching that ordinal; the hit is measured). Calls made by other threads (fdatasync/close of
+		// the batch sync timer) are reachable only through ordinals no main-thread call takes first; instances that
+		// stay unhit are reported (their on-disk state equals the one after the preceding main-thread call: all
+		// members written and linked, only sync/close outstanding).
 		var pts []point
 		otherSum := map[string]int{}
 		for _, sc := range crashSyscalls {
